@@ -205,6 +205,48 @@ func planSrcsim(tier string, corpus []Prog) *srcPlan {
 			pl.add(j, srcMeta{Class: "block", Prog: p.Name, Kinds: []string{f.Kind}})
 		}
 	}
+	// C2. a placeholder statement "..." (accepted with a warning) typed into a block of the root file or of a file it
+	// imports: step 0 parses the tree as it is, step 1 the tree with the placeholder; if the first delivers no error the
+	// second must not either (worker side, Job.WarnOnly)
+	for i := range corpus {
+		p := &corpus[i]
+		r := prng.Stream(seed, "srcsim", "todo", p.Name)
+		for _, file := range p.Only {
+			if !strings.HasSuffix(file, ".ddp") {
+				continue
+			}
+			src := p.Src
+			if file != p.Root {
+				b, err := os.ReadFile(filepath.Join(p.Base, file))
+				if err != nil {
+					continue
+				}
+				src = b
+			}
+			n := len(simdisk.TodoLines(src))
+			var picks []int
+			if thorough {
+				for k := 0; k < n; k++ {
+					picks = append(picks, k)
+				}
+			} else {
+				want := 4
+				if file != p.Root {
+					want = 1
+				}
+				for k := 0; k < want && k < n; k++ {
+					picks = append(picks, r.Intn(n))
+				}
+			}
+			for _, k := range picks {
+				j := baseJob(p)
+				j.Source = true
+				j.WarnOnly = true
+				j.Steps = []fwproto.Step{{Fresh: true}, {Fresh: true, Faults: []simdisk.Fault{{Kind: "todo", File: file, Off: k}}}}
+				pl.add(j, srcMeta{Class: "todo", Prog: p.Name, Kinds: []string{"todo"}})
+			}
+		}
+	}
 	// D. seeded multi-fault runs (1..3 faults, all content kinds, incl. faults on imported files)
 	nMulti := 40
 	if thorough {
